@@ -48,7 +48,6 @@ var triageAssert = map[string]string{
 }
 
 var triageNil = map[string]string{
-	"accessibleFrom/deref:ObjectOf":     "every identifier inside a type-checked expression has an object (Defs or Uses); field keys of composite literals resolve to the field",
 	"gen.rewritePkgRefs/deref:ObjectOf": "the selector's X was just asserted to be an identifier of type-checked syntax; the comma-ok assertion on the object handles nil",
 	"generateInjectors/deref:ObjectOf":  "fn.Name of a function declaration in type-checked syntax always has a *types.Func definition",
 	"Load/deref:ObjectOf":               "fn.Name of a function declaration in type-checked syntax always has a *types.Func definition",
